@@ -167,7 +167,8 @@ AOpen(v, o, hasUpper) ==
 \* slots: [0..2 -> slot]. Operations on an empty slot are not issued by the driver (Free); a file that is no longer
 \* visible under any name cannot be observed, so nothing is required there either.
 AHandleOp(v, slots, o, hasUpper) ==
-  IF o.op = "open" THEN AOpen(v, o, hasUpper)
+  IF o.op = "open" THEN (IF Has(o, "keep") /\ slots[o.keep] # NoSlot THEN Free(v)      \* busy slot: the driver does not issue it
+                         ELSE AOpen(v, o, hasUpper))
   ELSE IF o.op \in {"close", "hprobe"} THEN Free(v)
   ELSE LET s == slots[o.slot] IN
        IF s = NoSlot \/ ~IdVisible(v, s.id) THEN Free(v)
